@@ -9,9 +9,13 @@ def audit(lines):
     for l in lines:
         p = l.prec + 'a'
         base = {'key': std_key(l), 'line': l.raw, 'tol': TOL[l.prec], 'judge': simple_judge}
-        if l.op == 'compose':
+        if l.op in ('sqassign', 'mulassign_map'):
+            # g *= g with the right operand aliased to the left: still matrix(g)·matrix(g)
+            reqs.append((' '.join(['a_compose', l.grp, p] + l.ins + l.ins + l.outs),
+                         dict(base, what=f'{l.op}: in-place g *= g (aliased right operand) != matrix(g) matrix(g)')))
+        elif l.op in ('compose', 'mulassign', 'fcompose'):
             reqs.append((' '.join(['a_compose', l.grp, p] + l.ins + l.outs), dict(base, what='matrix(g1*g2) != matrix(g1) matrix(g2)')))
-        elif l.op == 'inverse':
+        elif l.op in ('inverse', 'finverse'):
             reqs.append((' '.join(['a_inverse', l.grp, p] + l.ins + l.outs), dict(base, what='matrix(inverse(g)) != matrix(g)^-1')))
         elif l.op == 'identity':
             reqs.append((' '.join(['a_identity', l.grp, p] + l.outs), dict(base, what='matrix(Identity) != I')))
@@ -31,7 +35,7 @@ def audit(lines):
 
 
 def make():
-    return LieProp('C01', ['identity', 'matrix', 'compose', 'compose3l', 'compose3r', 'inverse', 'act'],
+    return LieProp('C01', ['identity', 'matrix', 'compose', 'mulassign', 'sqassign', 'mulassign_map', 'fcompose', 'finverse', 'compose3l', 'compose3r', 'inverse', 'act'],
                    ['SmoothProps/C01.lean'], audit, TOL,
                    rule='harness/lie.cpp: per group type (6 catalogue families incl. Bundles) x scalar x 9 rotation-angle strata '
                         '(zero,tiny,switch,above_switch,small,generic,near_pi,beyond_pi,large) x 5 translation strata; '
